@@ -255,6 +255,9 @@ def main(tier, seed):
                 cases.append({"tree": t, "fmts": fs, "order": "reversed"})
                 for d in ds:
                     cases.append({"tree": t, "fmts": fs, "nested": d})
+        if len(t) <= 3:   # the same format requested more than once
+            cases.append({"tree": t, "fmts": ["md5", "md5"]})
+            cases.append({"tree": t, "fmts": ["xxh64", "c4", "xxh64"]})
         # ignored entries present: .DS_Store / *.tmp (user pattern) must not contribute
         if len(t) <= k - 1:
             for ip, ic in IGN:
@@ -265,6 +268,7 @@ def main(tier, seed):
         for fs in ([["c4"], list(ref.FORMATS_CLI)]):
             cases.append({"tree": zt, "fmts": fs, "meta": True})
     for st in SPECIAL_TREES:
+        cases.append({"tree": st, "fmts": ["c4", "c4", "md5"]})
         for fs in ([["md5"], ["c4"], list(ref.FORMATS_CLI)]):
             cases.append({"tree": st, "fmts": fs, "meta": len(fs) == 1})
             cases.append({"tree": st, "fmts": fs, "order": "reversed"})
@@ -295,7 +299,7 @@ def main(tier, seed):
         eng.sample({"tree": engine.tree_brief(c["tree"]), "fmts": c["fmts"], "nested": c.get("nested"), "order": c.get("order")})
     cov = {"states": len(states), "transitions": trans, "traces_validated_against_impl": trans, "exhaustive": True,
            "cases": len(cases), "directory_hash_comparisons": dirs,
-           "rule": f"all parent-closed trees (size<={k}) over the C02 name pool x (six single formats + all six) sealed by the real "
+           "rule": f"all parent-closed trees (size<={k}) over the C02 name pool x (six single formats + all six; small trees: a format requested twice) sealed by the real "
                    "create; every <directoryhash>/<roothash> value compared with the 12-line reference recursion; nested child at "
                    "every directory; reversed directory listing; ignored entries (.DS_Store, -i *.tmp) present; verify -dh -co "
                    "output; metamorphic in-place rename / content edit of every entry on freshly sealed trees; trees whose c4 file digest / "
